@@ -59,7 +59,12 @@ def plan(tier, seed):
     L = 4 if tier == "quick" else 5
     for i in range(8):
         specs.append({"name": f"progress-{i}", "mode": "progress", "maxlen": L, "shard": i, "nshards": 8})
+    for i in range(4):
+        specs.append({"name": f"literals-{i}", "mode": "literals", "maxlen": 4 if tier == "quick" else 5, "shard": i, "nshards": 4})
     return specs
+
+
+LIT_ALPHA = "0178 9afxXuUlL.ep+-bB".replace(" ", "")
 
 
 class Trace:
@@ -251,6 +256,31 @@ def run_shard(spec):
             res["nontrivial_distinct"] += 1
         cnt["type_lookups"] += len(tr.lookups)
         res["samples"].append({"pair": [V[3][1], V[60][1]], "vocabulary_size": len(V)})
+    elif spec["mode"] == "literals":
+        # every well-formed numeric literal of <= maxlen characters (by the reference classifier) inside a token stream:
+        # between an operator and ';', next to itself, at the very start and at the very end of the input
+        idx = 0
+        nlit = 0
+        for L in range(1, spec["maxlen"] + 1):
+            for tup in itertools.product(LIT_ALPHA, repeat=L):
+                idx += 1
+                if idx % spec["nshards"] != spec["shard"]:
+                    continue
+                lit = "".join(tup)
+                if lit[0] not in "0123456789.":
+                    continue
+                k = rlex.classify_literal(lit)
+                if not k or k == "PREFIXED_MULTICHAR":
+                    continue
+                nlit += 1
+                for toks, kinds in (([lit], [k]), (["x", "=", lit, ";"], ["ID", "EQUALS", k, "SEMI"]), ([lit, lit], [k, k]),
+                                    (["(", lit, ")", "+", lit], ["LPAREN", k, "RPAREN", "PLUS", k])):
+                    for style in ("single", "minimal"):
+                        add(check_layout(tr, toks, kinds, set(), style, idx, cnt))
+                        res["evaluations"] += 1
+                res["nontrivial_distinct"] += 1
+        cnt["numeric_literals"] = cnt.get("numeric_literals", 0) + nlit
+        res["samples"].append({"literal_alphabet": LIT_ALPHA, "numeric_literals_in_streams": nlit})
     elif spec["mode"] == "seq":
         rnd = random.Random(spec["rseed"])
         for i in range(spec["n"]):
